@@ -55,7 +55,7 @@ pub struct RHistory {
     mons: HashMap<Ep, EpMon>,
     pairs: HashMap<Ep, Ep>,
     ev_state: HashMap<u64, bool>, // server events: id -> currently connected according to events
-    removed_reason: HashMap<u64, Option<Tree>>, // id -> first reason of the connection at the time it was removed
+    removed_reason: HashMap<u64, std::collections::VecDeque<Option<Tree>>>, // id -> first reasons of its connections, in order of removal
     pub res: RunResult,
     step: usize,
 }
@@ -327,8 +327,8 @@ impl RHistory {
                 let exists = self.world.server.as_ref().map(|s| s.verif_connection(id).is_some()).unwrap_or(false);
                 let local_alive = if code == 29 { v.get(2).and_then(|t| t.as_u64()).and_then(|k| self.world.conns.get(&k)).map(|c| !c.is_disconnected()).unwrap_or(false) } else { true };
                 let reason = self.world.server.as_ref().and_then(|s| s.verif_connection(id)).and_then(|c| c.disconnect_reason()).map(reason_tree);
-                if exists && local_alive && !self.removed_reason.contains_key(&id) {
-                    self.removed_reason.insert(id, reason);
+                if exists && local_alive {
+                    self.removed_reason.entry(id).or_default().push_back(reason);
                 }
                 self.emit(op);
             }
@@ -766,7 +766,7 @@ impl RHistory {
                     }
                     // the reported reason is the connection's first one; a healthy connection reports Transport or DisconnectedByClient
                     let reported = ev.get(2).cloned();
-                    let first = self.removed_reason.remove(&id).flatten();
+                    let first = self.removed_reason.get_mut(&id).and_then(|q| q.pop_front()).flatten();
                     match (first, reported) {
                         (Some(f), Some(r)) if f != r => self.violate("C12", format!("client {} was first disconnected with {} but the event reports {}", id, f.to_text(), r.to_text())),
                         (None, Some(r)) => {
